@@ -6,6 +6,7 @@ import (
 	"fmt"
 	"os"
 	"path/filepath"
+	"sort"
 	"sync"
 	"sync/atomic"
 	"time"
@@ -530,6 +531,9 @@ func (m *Manager) ReloadSSTables() error {
 		m.sstables = append(m.sstables, reader)
 	}
 
+	// Readers consult the list from the last element down
+	sortSSTablesByRecency(m.sstables)
+
 	return nil
 }
 
@@ -853,7 +857,37 @@ func (m *Manager) loadSSTables() error {
 		m.sstables = append(m.sstables, reader)
 	}
 
+	// Readers consult the list from the last element down
+	sortSSTablesByRecency(m.sstables)
+
 	return nil
+}
+
+// sortSSTablesByRecency orders table readers oldest first, which is what the
+// read path expects (it treats the last element as the newest table). The
+// directory listing is in file-name order: level ascending, then a per-process
+// file counter that restarts at every open. Deeper levels hold older data than
+// shallower ones, and within a level the creation timestamp in the file name
+// gives the age
+func sortSSTablesByRecency(tables []*sstable.Reader) {
+	type fileAge struct {
+		level     int
+		timestamp int64
+	}
+	age := func(r *sstable.Reader) fileAge {
+		var level int
+		var seq uint64
+		var timestamp int64
+		fmt.Sscanf(filepath.Base(r.FilePath()), sstableFilenameFormat, &level, &seq, &timestamp)
+		return fileAge{level, timestamp}
+	}
+	sort.SliceStable(tables, func(i, j int) bool {
+		a, b := age(tables[i]), age(tables[j])
+		if a.level != b.level {
+			return a.level > b.level
+		}
+		return a.timestamp < b.timestamp
+	})
 }
 
 // recoverFromWAL recovers memtables from existing WAL files
